@@ -1,0 +1,152 @@
+//! Verification hooks: a thread-local event sink that records what the formatting pipeline did.
+//!
+//! This module only exists when the `verif_hooks` feature is enabled; nothing in a normal build
+//! refers to it. Recording is off until [`start`] is called on the current thread.
+
+use std::cell::RefCell;
+
+use crate::formatter::TokenMarker;
+use crate::lang::*;
+
+#[derive(Debug, Clone, Default)]
+pub struct LineSnapshot {
+    pub parent: Option<(usize, usize)>,
+    pub level: u16,
+    pub tokens: Vec<usize>,
+    pub line_type: String,
+}
+
+/// The abstract state of the pipeline after one stage.
+#[derive(Debug, Clone, Default)]
+pub struct StageSnapshot {
+    pub stage: String,
+    pub kinds: Vec<String>,
+    pub ws: Vec<String>,
+    pub texts: Vec<String>,
+    /// `[ignored, newlines, indentations, continuations, spaces]` per token; empty before `InitFmt`.
+    pub fmt: Vec<[u32; 5]>,
+    pub lines: Vec<LineSnapshot>,
+    pub ignored: Vec<usize>,
+}
+
+#[derive(Debug, Clone)]
+pub enum Event {
+    Stage(StageSnapshot),
+    /// A generic event: name, integer arguments, string arguments.
+    Step(&'static str, Vec<i64>, Vec<String>),
+}
+
+thread_local! {
+    static SINK: RefCell<Option<Vec<Event>>> = const { RefCell::new(None) };
+}
+
+/// Start recording on this thread (dropping anything recorded before).
+pub fn start() {
+    SINK.with(|s| *s.borrow_mut() = Some(Vec::new()));
+}
+
+/// Stop recording on this thread and return what was recorded.
+pub fn take() -> Vec<Event> {
+    SINK.with(|s| s.borrow_mut().take()).unwrap_or_default()
+}
+
+pub fn is_recording() -> bool {
+    SINK.with(|s| s.borrow().is_some())
+}
+
+pub fn emit(event: impl FnOnce() -> Event) {
+    SINK.with(|s| {
+        if let Some(events) = s.borrow_mut().as_mut() {
+            events.push(event());
+        }
+    });
+}
+
+pub fn step(name: &'static str, ints: &[i64]) {
+    emit(|| Event::Step(name, ints.to_vec(), vec![]));
+}
+
+fn snapshot_lines(lines: &[LogicalLine]) -> Vec<LineSnapshot> {
+    lines
+        .iter()
+        .map(|line| LineSnapshot {
+            parent: line
+                .get_parent()
+                .map(|p| (p.line_index, p.global_token_index)),
+            level: line.get_level(),
+            tokens: line.get_tokens().clone(),
+            line_type: format!("{:?}", line.get_line_type()),
+        })
+        .collect()
+}
+
+pub fn stage_raw(stage: &str, tokens: &[RawToken]) {
+    emit(|| {
+        Event::Stage(StageSnapshot {
+            stage: stage.to_owned(),
+            kinds: tokens
+                .iter()
+                .map(|t| format!("{:?}", t.get_token_type()))
+                .collect(),
+            ws: tokens
+                .iter()
+                .map(|t| t.get_leading_whitespace().to_owned())
+                .collect(),
+            texts: tokens.iter().map(|t| t.get_content().to_owned()).collect(),
+            ..Default::default()
+        })
+    });
+}
+
+pub fn stage_tokens(
+    stage: &str,
+    tokens: &[Token],
+    lines: &[LogicalLine],
+    ignored: Option<&TokenMarker>,
+) {
+    emit(|| {
+        Event::Stage(StageSnapshot {
+            stage: stage.to_owned(),
+            kinds: tokens
+                .iter()
+                .map(|t| format!("{:?}", t.get_token_type()))
+                .collect(),
+            ws: tokens
+                .iter()
+                .map(|t| t.get_leading_whitespace().to_owned())
+                .collect(),
+            texts: tokens.iter().map(|t| t.get_content().to_owned()).collect(),
+            fmt: vec![],
+            lines: snapshot_lines(lines),
+            ignored: ignored
+                .map(|m| (0..tokens.len()).filter(|i| m.is_marked(i)).collect())
+                .unwrap_or_default(),
+        })
+    });
+}
+
+pub fn stage_formatted(stage: &str, tokens: &FormattedTokens, lines: &[LogicalLine]) {
+    emit(|| {
+        let mut snapshot = StageSnapshot {
+            stage: stage.to_owned(),
+            lines: snapshot_lines(lines),
+            ..Default::default()
+        };
+        for (i, (tok, fmt)) in tokens.tokens().enumerate() {
+            snapshot.kinds.push(format!("{:?}", tok.get_token_type()));
+            snapshot.ws.push(tok.get_leading_whitespace().to_owned());
+            snapshot.texts.push(tok.get_content().to_owned());
+            snapshot.fmt.push([
+                fmt.is_ignored() as u32,
+                fmt.newlines_before as u32,
+                fmt.indentations_before as u32,
+                fmt.continuations_before as u32,
+                fmt.spaces_before as u32,
+            ]);
+            if fmt.is_ignored() {
+                snapshot.ignored.push(i);
+            }
+        }
+        Event::Stage(snapshot)
+    });
+}
